@@ -394,6 +394,31 @@ func checkUnionEnumValidators(w *World, r *Result) {
 		elseFalse = !inLoop && len(pathCondsNoLoop(fi, as)) == 0
 		return true
 	})
+	// the cases may be written into a strings.Builder: `cases.WriteString("ELSE RETURN FALSE;")` after the loop
+	ast.Inspect(fi.Decl.Body, func(x ast.Node) bool {
+		es0, ok := x.(*ast.ExprStmt)
+		if !ok || textAccumTarget(info, es0) == "" {
+			return true
+		}
+		call := es0.X.(*ast.CallExpr)
+		has := false
+		for _, a := range call.Args {
+			if isElse(a) {
+				has = true
+			}
+		}
+		if !has {
+			return true
+		}
+		inLoop := false
+		for _, l := range loops {
+			if l.Pos() <= es0.Pos() && es0.End() <= l.End() {
+				inLoop = true
+			}
+		}
+		elseFalse = !inLoop && len(pathCondsNoLoop(fi, es0)) == 0
+		return true
+	})
 	r.cond(elseFalse, "AGR-C04u", fi.Name, "unknown Kind => FALSE", fnPos(w, fi), "the CASE ends with ELSE RETURN FALSE, appended unconditionally after the member cases", "the union validator no longer rejects an unknown Kind")
 	// member case calls the member's validator on Data
 	okCase := false
